@@ -577,6 +577,12 @@ def run_c12(pid):
             add("cue", "non-ascii-argument", text="TRACK 01 AUDIO\n  ISRC %s\n  INDEX 01 00:00:00\n" % arg, total=588 * 10 ** 6)
             add("cue", "non-ascii-argument", text="CATALOG %s\nTRACK 01 AUDIO\n  INDEX 01 00:00:00\n" % ("1234567890123"[:pos] + ch + "1234567890123"[pos + 1:]), total=588 * 10 ** 6)
             add("cue", "non-ascii-argument", text="TRACK 01 AUDIO\n  INDEX 01 0%s:00:00\n" % (ch if pos == 0 else "0" + ch), total=588 * 10 ** 6)
+    # quoting: lone, doubled, unbalanced and empty quotes as the argument of every line kind that unquotes
+    for arg in ('"', '""', '"""', '"1', '1"', '" "', '"\t"', '"1234567890123', '1234567890123"', '"USABC0012345', "'", "'1234567890123'", '" ', ' "'):
+        for tmpl in ("CATALOG %s\nTRACK 01 AUDIO\n  INDEX 01 00:00:00\n", "TRACK 01 AUDIO\n  ISRC %s\n  INDEX 01 00:00:00\n", "CATALOG\t%s\nTRACK 01 AUDIO\n  INDEX 01 0\n",
+                     "TRACK %s AUDIO\n  INDEX 01 00:00:00\n", "TRACK 01 AUDIO\n  INDEX %s 00:00:00\n", "TRACK 01 AUDIO\n  INDEX 01 %s\n", "TRACK 01 AUDIO\n  FLAGS %s\n  INDEX 01 00:00:00\n",
+                     "%s\n", "REM %s\nTRACK 01 AUDIO\n  INDEX 01 00:00:00\n"):
+            add("cue", "quote-argument", text=tmpl % arg, total=588 * 10 ** 6 + (1 if "INDEX 01 0\n" in tmpl else 0))
     # (b) picture sniffing
     for cls, data in sniff_items(rnd):
         add("sniff", cls.split(" ")[0], bytes=data)
